@@ -412,6 +412,22 @@ func c12WordOps(rep *report.Report) {
 		}
 		ws = strings.NewReplacer("not contains", "not   contains", "not icontains", "not \t icontains", "not between", "not\n between", "(", "( ", ")", " )", "[", "[ ", "]", " ]", ",", " , ").Replace(ws)
 		variants = append(variants, variant{b, ws})
+		// every blank of the base (none is inside a string literal) replaced by each other whitespace
+		// character - one blank at a time and all at once - and doubled where the grammar has WS+
+		// (`not in` is a single token with exactly one whitespace character inside)
+		for _, alt := range []string{"\t", "\n", "\r"} {
+			variants = append(variants, variant{b, strings.ReplaceAll(b, " ", alt)})
+			for i := 0; i < len(b); i++ {
+				if b[i] == ' ' {
+					variants = append(variants, variant{b, b[:i] + alt + b[i+1:]})
+				}
+			}
+		}
+		for i := 0; i < len(b); i++ {
+			if b[i] == ' ' && !(i >= 3 && strings.EqualFold(b[i-3:i], "not") && strings.HasPrefix(b[i+1:], "in ")) {
+				variants = append(variants, variant{b, b[:i] + " \t" + b[i+1:]}, variant{b, b[:i] + "\n " + b[i+1:]})
+			}
+		}
 		// comparison operators allow no blanks at all
 		variants = append(variants, variant{b, strings.NewReplacer(" = ", "=", " != ", "!=", " > ", ">").Replace(b)})
 	}
